@@ -187,6 +187,48 @@ func main() {
 				violate("foreign-metadata-trusted", s, fmt.Sprintf("shape %d: metadata of a different file (%s) accepted: %d chunks reported complete", si, r.name, k), rp)
 			}
 		}
+		// internally consistent metadata written for another identity: what an earlier run with
+		// another chunk size, another version of the file or another file under the same name
+		// leaves behind. Every bit of it is marked, so trusting it would skip the whole file.
+		type other struct {
+			name string
+			sh   shape
+		}
+		var others []other
+		for _, c := range []uint32{s.Chunk * 2, s.Chunk / 2, s.Chunk + 1, s.Chunk - 1, 1} {
+			if c >= 1 && c != s.Chunk {
+				others = append(others, other{fmt.Sprintf("consistent-other-chunk-size-%d", c), shape{s.ID, s.Size, c, nil}})
+			}
+		}
+		for _, sz := range []int64{s.Size + 1, s.Size - 1, s.Size * 2, int64(s.Chunk)} {
+			if sz >= 1 && sz != s.Size {
+				others = append(others, other{fmt.Sprintf("consistent-other-size-%d", sz), shape{s.ID, sz, s.Chunk, nil}})
+			}
+		}
+		others = append(others, other{"consistent-other-id", shape{s.ID + "x", s.Size, s.Chunk, nil}})
+		for _, o := range others {
+			n++
+			if !vlib.Mine(n) {
+				continue
+			}
+			total := (o.sh.Size + int64(o.sh.Chunk) - 1) / int64(o.sh.Chunk)
+			if total > 4096 {
+				total = 4096
+			}
+			for i := int64(0); i < total; i++ {
+				o.sh.Bits = append(o.sh.Bits, uint32(i))
+			}
+			d := build(o.sh)
+			res.Eval()
+			res.Nontrivial(fmt.Sprintf("%d|%s", si, o.name))
+			k, err, pan := trusted(d, s)
+			rp := map[string]any{"shape": si, "mutation": o.name}
+			if pan {
+				violate("panic", s, fmt.Sprintf("shape %d %s: %v", si, o.name, err), rp)
+			} else if err == nil && k > 0 {
+				violate("foreign-metadata-trusted", s, fmt.Sprintf("shape %d (id %q size %d chunk %d): valid metadata written for %s (id %q size %d chunk %d) is adopted: %d chunks reported complete", si, s.ID, s.Size, s.Chunk, o.name, o.sh.ID, o.sh.Size, o.sh.Chunk, k), rp)
+			}
+		}
 	}
 	// all files of 0..2 bytes
 	s := shapes[0]
